@@ -165,7 +165,7 @@ func c07() {
 			defer wg.Done()
 			rng := r.Rand(fmt.Sprintf("c07-%d", w))
 			for i := 0; i < n/workers; i++ {
-				cfg := gen.RandomTreeConfig{Names: []string{"a", "b", "c"}, MaxDepth: 1 + rng.Intn(4), DirBias: 0.6, AbsentBias: 0.3, Unsync: true, Phantoms: rng.Intn(3) == 0}
+				cfg := gen.RandomTreeConfig{Names: []string{"a", "ab", "b"}, MaxDepth: 1 + rng.Intn(4), DirBias: 0.6, AbsentBias: 0.3, Unsync: true, Phantoms: rng.Intn(3) == 0}
 				b := gen.RandomEntry(rng, cfg, 0, true)
 				var t *core.Entry
 				if rng.Intn(3) == 0 {
